@@ -775,6 +775,10 @@ pub const SELFDESTRUCT_FORMS: &[(&str, Kind, &str)] = &[
     ("only-modifier-exact", Near, "function kill() public only { selfdestruct(payable(owner)); }"),
     ("only-modifier-inside-name", Near, "function kill() public isonlyme(1) { selfdestruct(payable(owner)); }"),
     ("only-modifier-second", Near, "function kill() public auth onlyOwner { selfdestruct(payable(msg.sender)); }"),
+    ("only-modifier-qualified-last", Near, "function kill() public Auth.onlyOwner { selfdestruct(payable(owner)); }"),
+    ("only-modifier-qualified-first", Near, "function kill() public onlyAuth.check(1) { selfdestruct(payable(owner)); }"),
+    ("only-modifier-qualified-middle", Near, "function kill() public a.b.onlyOwner.c { selfdestruct(payable(owner)); }"),
+    ("modifier-qualified-without-only", Canon, "function kill() public Auth.owner { selfdestruct(payable(owner)); }"),
     ("internal-function", Near, "function kill() internal { selfdestruct(payable(owner)); }"),
     ("private-function", Near, "function kill() private { selfdestruct(payable(msg.sender)); }"),
     ("no-visibility", Near, "function kill() { selfdestruct(payable(owner)); }"),
@@ -805,6 +809,7 @@ pub const SD_PROTECTED: &[(&str, &str, &str)] = &[
     ("only-modifier", "public onlyOwner", ""),
     ("only-exact-modifier", "external only", ""),
     ("only-inside-name", "public isonlyme(1)", ""),
+    ("only-qualified-last", "public Auth.onlyOwner", ""),
     ("require-left", "public", "require(msg.sender == @O@);"),
     ("require-right", "external", "require(@O@ == msg.sender, \"no\");"),
     ("require-ne-right", "public", "require(address(0) != msg.sender);"),
